@@ -22,7 +22,7 @@ RULE = (
 )
 TIERS = {"quick": {"shards": 8, "n": 700, "budget_s": 200}, "thorough": {"shards": 16, "n": 6000, "budget_s": 2700}}
 FLOOR = {"quick": 200, "thorough": 10000}
-REQUIRED_LABELS = {"quick": ["same-name-pair", "multi-pair:same-function", "pair:attr->attr", "pair:arg->arg", "pair:arg->kwarg", "pair:attr->arg", "wrap", "eval", "target-not-first", "target-after-self"], "thorough": []}
+REQUIRED_LABELS = {"quick": ["same-name-pair", "multi-pair:same-function", "pair:attr->attr", "pair:arg->arg", "pair:arg->kwarg", "pair:attr->arg", "wrap", "eval", "target-not-first", "target-after-self", "via-cli", "via-api"], "thorough": []}
 ASSUMPTIONS = [
     "the new name never collides with another parameter of the target function (a collision would be the generator's duplicate, not cdd's)",
     "paths cdd cannot resolve raise; the oracle for a raise is 'output and input files byte-identical'",
@@ -133,11 +133,27 @@ def case_strategy(draw):
         if forced is not None:
             ip, op = forced
         wrap = draw(st.sampled_from([None, None, "Optional[{output_param}]", "Union[{output_param}, str]"]))
-    return {"isrc": isrc, "osrc": osrc, "ip": ip, "op": op, "wrap": wrap, "eval": ev}
+    return {"isrc": isrc, "osrc": osrc, "ip": ip, "op": op, "wrap": wrap, "eval": ev, "cli": draw(st.integers(0, 2)) == 0}
 
 
 def strategy(ctx):
     return case_strategy().filter(lambda c: c["ip"] is not None and (c["op"][1] != "attr" or c["ip"][1] in ("attr", "const")))
+
+
+def call_sync(cli, ev, i, input_params, o, output_params, wrap):
+    """the function itself, or the `python -m cdd sync_properties` command line (same process)"""
+    if not cli:
+        return cdd.compound.sync_properties.sync_properties(input_eval=ev, input_filename=i, input_params=input_params, output_filename=o, output_params=output_params, output_param_wrap=wrap)
+    argv = ["sync_properties", "--input-filename", i, "--output-filename", o]
+    for p in input_params:
+        argv += ["--input-param", p]
+    for p in output_params:
+        argv += ["--output-param", p]
+    if ev:
+        argv.append("--input-eval")
+    if wrap:
+        argv += ["--output-param-wrap", wrap]
+    return cdd.__main__.main(argv)
 
 
 def mask(tree, dotted):
@@ -184,6 +200,7 @@ def oracle(case):
         r.label("wrap")
     if ev:
         r.label("eval")
+    r.label("via-cli" if case.get("cli") else "via-api")
     if op[1] != "attr" and info["idx"] > 0:
         r.label("target-not-first")
     if info.get("first"):
@@ -200,7 +217,7 @@ def oracle(case):
         raised = None
         try:
             with core.quiet():
-                cdd.compound.sync_properties.sync_properties(input_eval=ev, input_filename=i, input_params=[ip[0]], output_filename=o, output_params=[op[0]], output_param_wrap=wrap)
+                call_sync(case.get("cli"), ev, i, [ip[0]], o, [op[0]], wrap)
         except BaseException as e:
             if isinstance(e, (core.CaseTimeout, KeyboardInterrupt)):
                 raise
@@ -290,7 +307,7 @@ def multi_strategy(draw):
         used_targets.add(op[0])
         if not ev:
             new_names.setdefault(scope, set()).add(ip[2][0])
-    return {"isrc": isrc, "osrc": osrc, "pairs": pairs, "eval": ev, "wrap": None if ev else draw(st.sampled_from([None, None, "Optional[{output_param}]"])), "multi": True}
+    return {"isrc": isrc, "osrc": osrc, "pairs": pairs, "eval": ev, "wrap": None if ev else draw(st.sampled_from([None, None, "Optional[{output_param}]"])), "multi": True, "cli": draw(st.integers(0, 2)) == 0}
 
 
 def _run(case, d, pairs_list, tag):
@@ -300,7 +317,7 @@ def _run(case, d, pairs_list, tag):
     for pairs in pairs_list:
         try:
             with core.quiet():
-                cdd.compound.sync_properties.sync_properties(input_eval=case["eval"], input_filename=i, input_params=[p[0][0] for p in pairs], output_filename=o, output_params=[p[1][0] for p in pairs], output_param_wrap=case["wrap"])
+                call_sync(case.get("cli"), case["eval"], i, [p[0][0] for p in pairs], o, [p[1][0] for p in pairs], case["wrap"])
         except BaseException as e:
             if isinstance(e, (core.CaseTimeout, KeyboardInterrupt)):
                 raise
